@@ -93,8 +93,12 @@ class BiasedSVDScorer(Component[ItemList], Trainable):
 
         r_mat = r_mat.tocsr()
 
+        rng = options.random_generator()
         self.factorization_ = TruncatedSVD(
-            self.config.embedding_size, algorithm=self.config.algorithm, n_iter=self.config.n_iter
+            self.config.embedding_size,
+            algorithm=self.config.algorithm,
+            n_iter=self.config.n_iter,
+            random_state=int(rng.integers(2**31 - 1)),
         )
         _log.info("[%s] training SVD (k=%d)", timer, self.factorization_.n_components)  # type: ignore
         Xt = self.factorization_.fit_transform(r_mat)  # type: ignore
